@@ -173,7 +173,7 @@ PROPS["C13"] = dict(
     pkg="./props/c13_delays",
     tests=[REGRESS(), T("TestDelaysBlackBox", (8, 1500), (8, 40000)), T("TestDelaysProbe", (4, 20000), (8, 400000))],
     fuzz=[dict(name="FuzzDelaysProbe", time="120s")],
-    rule="rapid-generated delay configurations: {none, fixed, backoff with factor 1..10 (WithBackoff and WithBackoffFactor), random range, delay function returning a value / 0 / -1, backoff with a delay function that answers on some retries only} x {no jitter, jitter duration, jitter factor} x {no max duration, max duration}, optionally preceded by builder calls the documentation says are replaced (a fixed/random/backoff delay before a backoff or random delay, the other jitter kind before the jitter), magnitudes log-uniform from 1 us to 10 h, 1..12 consecutive failures; black box: OnRetryScheduled delays and monotonic timestamps, really waited for at sub-millisecond magnitudes, first delay only (context cancelled from inside the listener) above; probe: consecutive delays of one retry executor on a virtual elapsed time at any magnitude; non-trivial = jitter or clamp active, or at least 3 consecutive backoff delays, or a base delay of at least 1 s; distinct = the configuration",
+    rule="rapid-generated delay configurations: {none, fixed, backoff with factor 1..10 (WithBackoff and WithBackoffFactor), random range, delay function returning a value / 0 / -1, backoff with a delay function that answers on some retries only, a delay function that takes 0.2..3 ms to answer while a max duration runs down} x {no jitter, jitter duration, jitter factor} x {no max duration, max duration}, optionally preceded by builder calls the documentation says are replaced (a fixed/random/backoff delay before a backoff or random delay, the other jitter kind before the jitter), magnitudes log-uniform from 1 us to 10 h, 1..12 consecutive failures; black box: OnRetryScheduled delays and monotonic timestamps, really waited for at sub-millisecond magnitudes, first delay only (context cancelled from inside the listener) above; probe: consecutive delays of one retry executor on a virtual elapsed time at any magnitude; non-trivial = jitter or clamp active, or at least 3 consecutive backoff delays, or a base delay of at least 1 s; distinct = the configuration",
     assumptions=["backoff and jitter-factor bounds carry a relative tolerance of 1e-5 per step (float32 arithmetic in the implementation, DESIGN.md L6); absolute bounds (>= 0, <= maxDelay, range ends, remaining max duration) are exact",
                  "on the black-box path the clamp to the remaining max duration is bounded on both sides by elapsed times sampled before and after the policy's own reading",
                  "with a delay function that answers on some retries only, the k-th backoff delay is the k-th delay the backoff itself produced (the function's answers in between do not advance it)", "consecutive delays at magnitudes that cannot be waited for are read through retrypolicy.VerifDelayProbe (build tag verif)"],
